@@ -58,7 +58,7 @@ class A(Adapter):
     serves = {"C01", "C04", "C05", "C06", "C08", "C09", "C10", "C11", "C12"}
     terminate_on_invalid = False
     max_steps = 110
-    ops = ("state", "step", "judge", "instance", "bounds")
+    ops = ("state", "step", "judge", "instance", "bounds", "spec")
     state_fields = ["coordinates", "demands", "win_start", "win_end", "coef_early", "coef_late", "local_times",
                     "positions", "capacities", "distances", "time_penalties", "order", "step_count", "action_mask"]
 
@@ -70,6 +70,7 @@ class A(Adapter):
         from jumanji.environments.routing.multi_cvrp import MultiCVRP
         from jumanji.environments.routing.multi_cvrp.generator import UniformRandomGenerator
         from jumanji.environments.routing.multi_cvrp.reward import DenseReward, SparseReward
+        from jumanji.environments.routing.multi_cvrp.utils import max_single_vehicle_distance
 
         # (tag, n, v, kind, rewards)   kind: "paper" = shipped scenario, else custom (map_max, cap, dmax, max_start, full)
         sizes = [("paper", 6, 3, "paper", (True,)), ("tiny", 3, 2, (5, 6, 4, 4.0, False), (False,)),
@@ -111,7 +112,10 @@ class A(Adapter):
                        # read by multi_cvrp.instance when it replays the generator from the raw draw (C10): lower ends
                        "coef_early_min": rat(float(np.float32(g._early_coef_rand[0]))),
                        "coef_late_min": rat(float(np.float32(g._late_coef_rand[0]))),
-                       "dist_max": rat(float(np.float32(float(g._map_max) * np.sqrt(2.0))))}
+                       "dist_max": rat(float(np.float32(float(g._map_max) * np.sqrt(2.0)))),
+                       # read by multi_cvrp.spec / the membership keys of multi_cvrp.state (C01, wave 4): the declared maximum of
+                       # vehicles.local_times, computed as the constructor does (a float32 product with sqrt 2)
+                       "max_local_time": rat(float(np.float32(max_single_vehicle_distance(g._map_max, n))))}
                 out.append(Config(f"multi_cvrp-{tag}-n{n}-v{v}-c{cfg['max_capacity']}-{'dense' if dense else 'sparse'}",
                                   build, cfg, dense=dense, n=n, v=v, partner=partner,
                                   constant_generator=False))
@@ -154,6 +158,27 @@ class A(Adapter):
 
     def ser_action(self, env, a):
         return [int(x) for x in np.asarray(a).reshape(-1)]
+
+    # ---- wave 4 (hook of the C09 / C12 sweeps): declared specs vs the model's obsSpec / actionSpec and the hypothesis DeclOK of the
+    # membership theorems on this configuration (`multi_cvrp.spec`), the reset timestep, the observation arrays (`toNValue` layout),
+    # membership (`obs_in_spec` vs observation_spec.validate) and the invariant SpecInv on implementation states at reset, along
+    # play and on the terminal step (harness/wave4_spec.py; theorems multicvrp_obsSpec_generated, multicvrp_*_obs_valid,
+    # multicvrp_specInv_invariant)
+    def synthetic(self, ctx, cfg, env, runner, rng, drv):
+        import wave4_spec as w4
+        from common import DriverError
+
+        w4.check_specs(ctx, self, cfg, env, drv)
+        m = drv.batch([dict(op="multi_cvrp.spec", cfg=cfg.cfg)])[0]
+        ctx.evaluations += 1
+        if isinstance(m, DriverError) or m.get("decl_ok") is not True:
+            ctx.fail(self.name, "spec_decl", "observation spec: the hypothesis DeclOK of the membership theorems (customer_demand_max <= "
+                     "max_capacity, early coefficient maximum <= late coefficient maximum, 2 N dist_max <= max_local_time) fails on "
+                     f"this configuration: {m}", {"env": self.name, "config": cfg.cid})
+        n = cfg.meta["n"]
+        steps = (2 * n + 2) if n <= 6 else (12 if ctx.quick else 2 * n + 2)
+        w4.check_reset_and_obs(ctx, self, cfg, env, runner, rng, drv, 3 if ctx.quick else 6, steps,
+                               policies=("masked", "uniform", "masked_high"), extra="spec_inv")
 
     # ---- C10: replay of the generator from the raw random numbers
     @staticmethod
